@@ -364,6 +364,24 @@ func (r *rng) clock(s *scn.Scenario, est int64) {
 	}
 }
 
+// stalls draws stall faults: one task (rarely two) that is passed over by the
+// scheduler for a long stretch of the run while anybody else can run.
+func (r *rng) stalls(est int64, tasks int) [][3]int64 {
+	var out [][3]int64
+	if tasks < 2 || !r.chance(25) {
+		return nil
+	}
+	for k := 1 + r.n(4)/3; k > 0; k-- {
+		from := int64(r.n(int(est/2) + 1))
+		if r.chance(40) {
+			from = 0
+		}
+		length := est/8 + int64(r.n(int(est)+1))
+		out = append(out, [3]int64{int64(r.n(tasks)), from, from + length})
+	}
+	return out
+}
+
 func (r *rng) gcSteps(est int64) []int64 {
 	var out []int64
 	if r.chance(35) {
@@ -464,8 +482,16 @@ func genC11CLI(c *corpus, r *rng, seed uint64) *scn.Scenario {
 	if r.chance(25) {
 		// swarm: entries the program walks past without processing them (not
 		// *.php), sorted before and after the files it does process
-		for k := 1 + r.n(2); k > 0; k-- {
+		k := 1 + r.n(2)
+		bulk := r.chance(30)
+		if bulk {
+			k = 8 + r.n(24) // a directory of assets behind the sources: a long tail for the walker
+		}
+		for ; k > 0; k-- {
 			name := []string{"aa_notes.txt", "zz_readme.md", "zz_data.json", "sub/zz_more.txt", "Makefile"}[r.n(5)]
+			if bulk {
+				name = "zz_assets_" + string(rune('a'+k/10)) + string(rune('0'+k%10)) + ".js"
+			}
 			if split {
 				// the program is given the directories d0 and d1: the entry goes
 				// into one that exists
@@ -542,6 +568,7 @@ func genC11CLI(c *corpus, r *rng, seed uint64) *scn.Scenario {
 	}
 	s.Knob = r.knob(knobs)
 	s.Faults = scn.Faults{Seed: r.next(), GCSteps: r.gcSteps(est)}
+	s.Faults.Stalls = r.stalls(est, s.Workers+3)
 	r.clock(s, est)
 	return s
 }
@@ -756,6 +783,7 @@ func genC11(c *corpus, seed uint64) *scn.Scenario {
 	s.Sched = r.schedule(est, ntasks)
 	s.Knob = r.knob(knobs)
 	s.Faults = scn.Faults{Seed: r.next(), GCSteps: r.gcSteps(est)}
+	s.Faults.Stalls = r.stalls(est, ntasks)
 	r.clock(s, est)
 	return s
 }
@@ -1202,6 +1230,7 @@ func genC18(c *corpus, seed uint64) *scn.Scenario {
 		s.Sched.SiteClass = "pool"
 	}
 	s.Faults = scn.Faults{Seed: r.next()}
+	s.Faults.Stalls = r.stalls(int64(total*12+100), nt)
 	r.clock(s, int64(total*12+100))
 	return s
 }
